@@ -721,6 +721,9 @@ def run_sharing(ck, wd, thorough, rng):
                     if it[0] == "call":
                         users.setdefault(it[1], set()).add(nm + ":bkg")
     allcfg = [n + ":bkg" for n in names] + DBD_SHARE_CFGS
+    # generators with a momentum-direction-lock operation and dbd_gA objects producing complete events: the code they share
+    # (rotation helpers) runs on several threads at once
+    extra_cfg = ["MDL@Co60:bkg", "MDL@Cs137:bkg", "MDL@Mo100:0:1", "MDL@Bi214+Po214:bkg", "GATEST", "GATEST"]
     pairs = set()
     for prim, us in sorted(users.items()):
         u = sorted(us)
@@ -736,6 +739,9 @@ def run_sharing(ck, wd, thorough, rng):
         for b in DBD_SHARE_CFGS:
             if a != b:
                 pairs.add((a, b))
+    for a in extra_cfg:
+        for b in extra_cfg + ["Co60:bkg", "Mo100:0:1"]:
+            pairs.add((a, b))
     if thorough:
         for a in allcfg:
             for b in allcfg:
@@ -746,8 +752,10 @@ def run_sharing(ck, wd, thorough, rng):
     nsh = PAR_THOROUGH if thorough else PAR
 
     def shard(i):
+        e_ = vlib.harness_env("plain")
+        e_["BXDECAY0_DBD_GA_DATA_DIR"] = os.path.join(vlib.repo(), "resources")
         return vlib.sh([exe, "--mode", "baton", "--events", "25" if thorough else "12"], input="\n".join("%s %s" % p for p in pairs[i::nsh]) + "\n",
-                       timeout=3000, env=vlib.harness_env("plain"), drop_stderr=True)
+                       timeout=3000, env=e_, drop_stderr=True)
     res = []
     with cf.ThreadPoolExecutor(max_workers=nsh) as ex:
         for i, (rc, out) in enumerate(ex.map(shard, range(nsh))):
@@ -785,7 +793,8 @@ def run_sharing(ck, wd, thorough, rng):
     # free-running threads over every configuration, ThreadSanitizer
     exe_t = vlib.compile_harness("share_sched", ["harness/share_sched.cc"], "tsan")
     env = vlib.harness_env("tsan")
-    rc, out = vlib.sh([exe_t, "--mode", "free", "--threads", "4", "--events", "4" if thorough else "2"], input="\n".join(allcfg) + "\n",
+    env["BXDECAY0_DBD_GA_DATA_DIR"] = os.path.join(vlib.repo(), "resources")      # the shipped mock table Test/g0
+    rc, out = vlib.sh([exe_t, "--mode", "free", "--threads", "4", "--events", "4" if thorough else "2"], input="\n".join(extra_cfg * 3 + allcfg + extra_cfg) + "\n",
                       timeout=1500, env=env)
     if rc == 124:
         raise vlib.InfraError("free-running sharing run timed out")
